@@ -365,6 +365,7 @@ PLAN = {
         "legs": [
             {"name": "native", "flavour": "native", "shards": 4, "shards_thorough": 16, "timeout": 900},
             {"name": "v6", "flavour": "native", "shards": 2, "shards_thorough": 8, "timeout": 900},
+            {"name": "emfile", "flavour": "native", "shards": 1, "shards_thorough": 2, "timeout": 900},
         ],
     },
     "C11": {
